@@ -1478,6 +1478,9 @@ impl Injection for Base<Float, DataType> {
     ) -> Result<<Self::CoDomain as Variant>::Element> {
         match self.co_domain() {
             DataType::Null => Err(Error::argument_out_of_range(arg, self.domain())),
+            DataType::Integer(co_domain) => {
+                Ok(From(self.domain()).into(co_domain)?.value(arg)?.into())
+            }
             DataType::Float(co_domain) => {
                 Ok(From(self.domain()).into(co_domain)?.value(arg)?.into())
             }
